@@ -23,6 +23,10 @@ func ErrAtKey(key string, err error) error {
 	)
 }
 
+func ErrCyclicPointers(rounds int) error {
+	return fmt.Errorf("anonymous JSON pointers could not all be replaced after %d iterations (cyclic pointers?): %w", rounds, ErrAnalysis)
+}
+
 func ErrInvalidRef(key string) error {
 	return fmt.Errorf("invalid reference: %q: %w", key, ErrAnalysis)
 }
